@@ -9,7 +9,7 @@ from props._fa_common import TRUSTED, ASSUMPTIONS, TECHNIQUE
 PROP = "C05"
 LEVEL = "other"
 THEOREMS = {"Properties.C05": ["C05_regex_automaton", "C05_matcher", "C05_equiv_certificate", "C05_operator_spellings_from_source", "C05_precedence_instances",
-                             "C05_to_epsilon_nfa_model", "C05_to_cfg_model"]}
+                             "C05_to_epsilon_nfa_model", "C05_to_cfg_model", "C05_parser_reads_minimal_text"]}
 LEVEL_TEXT = ("Partial proof + correspondence: the denotation of regular expressions, the automaton construction re_fa (proved: Lang (re_fa r) = den r), the "
               "derivative matcher (proved exact) and the exact equivalence check are machine-checked for all expressions. The documented concrete syntax is "
               "given by a reference recursive-descent parser in Gallina (precedence star > concatenation > union, both operator spellings, epsilon/$, "
@@ -18,8 +18,9 @@ LEVEL_TEXT = ("Partial proof + correspondence: the denotation of regular express
               "check; ill-formed text must raise MisformedRegexError and nothing else. Regex.to_epsilon_nfa (pyformlang's own Thompson-style construction "
               "with its running state counter) and Regex.to_cfg (one variable per node) are mirrored in Gallina and proved to denote den r for every "
               "expression; what pyformlang returns is compared structurally (states, transitions; variables, productions) with these models on every "
-              "generated expression. The reference parser itself and pyformlang's tokeniser are not verified against a printer (no round-trip theorem "
-              "yet), which is why the level stays 'other'.")
+              "generated expression. The reference parser is proved to read back every expression from its minimally parenthesised text, with "
+              "either spelling of concatenation (C05_parser_reads_minimal_text): it implements the documented precedences. pyformlang's own parser and "
+              "tokeniser are compared with it, not mirrored, which is why the level stays 'other'.")
 LEVEL_NOTE = "Trusted: Coq kernel; the reference parser as the reading of the documented grammar; Python harness (renders token lists to text)."
 RULE = ("generated expressions (depth <= 4; symbols of 1-3 characters, escaped operators, epsilon and $; both spellings of union and concatenation; minimal, "
         "redundant and doubled parentheses; with and without blanks around operators) + ill-formed texts (unbalanced, dangling or doubled operators, "
